@@ -50,6 +50,7 @@ type Summary struct {
 	Digests    []string       `json:"digests"`     // distinct run digests of non-trivial runs (16 hex chars)
 	AllDigests int            `json:"all_digests"` // distinct digests over all runs
 	States     []uint64       `json:"states"`
+	Grid       []uint64       `json:"grid,omitempty"`
 	Nontrivial int            `json:"nontrivial"`
 	Violations []ViolationRec `json:"violations,omitempty"`
 	Samples    []Sample       `json:"samples,omitempty"`
@@ -109,6 +110,7 @@ func batch(t *testing.T) {
 	digNT := map[string]struct{}{}
 	digAll := map[string]struct{}{}
 	states := map[uint64]struct{}{}
+	grid := map[uint64]struct{}{}
 	t0 := time.Now()
 	idx := *fStart
 	// per-run wall-clock watchdog (real time, outside any bubble): a run that does not finish is a harness
@@ -178,6 +180,9 @@ func batch(t *testing.T) {
 		for _, s := range r.States {
 			states[s] = struct{}{}
 		}
+		for _, s := range r.Grid {
+			grid[s] = struct{}{}
+		}
 		if len(r.Violations) > 0 && len(sum.Violations) < 20 {
 			sum.Violations = append(sum.Violations, ViolationRec{Plan: p, Result: r})
 		}
@@ -194,6 +199,9 @@ func batch(t *testing.T) {
 	sum.AllDigests = len(digAll)
 	for s := range states {
 		sum.States = append(sum.States, s)
+	}
+	for s := range grid {
+		sum.Grid = append(sum.Grid, s)
 	}
 	sum.WallS = time.Since(t0).Seconds()
 	if jw != nil {
